@@ -386,6 +386,26 @@ func (t *Task) Join(other *Task) {
 	}
 }
 
+// JoinTimeout waits for other to end, at most d of simulated time; reports
+// whether it ended.
+func (t *Task) JoinTimeout(other *Task, d time.Duration) bool {
+	s := t.sim
+	deadline := time.Now().Add(d)
+	for {
+		s.mu.Lock()
+		if other.state == TsDone {
+			s.mu.Unlock()
+			return true
+		}
+		other.join = append(other.join, t)
+		s.mu.Unlock()
+		if !time.Now().Before(deadline) {
+			return false
+		}
+		t.BlockUntil("join "+other.Name, deadline)
+	}
+}
+
 // Done reports whether the task has ended.
 func (t *Task) Done() bool {
 	t.sim.mu.Lock()
